@@ -27,7 +27,7 @@ LEVEL_TEXT = ('History independence is a reachability question over the decoder\
               'modes (-a, -a -r, -l) are compared with per-file decodes.')
 LEVEL_NOTE = ('depth bound 2 (quick) / 4 (thorough) beyond which only fingerprint-distinct states are extended; state kept '
               'outside the repository\'s modules (e.g. in the interpreter) is covered only by the un-merged depth-2 pass')
-RULE = ('events = 37 PELs (with the fixture message registry loaded; built-in JSON, fixture parser ok / raising / ImportError in call / None / absent module, callouts '
+RULE = ('events = 38 PELs (with the fixture message registry loaded; built-in JSON, fixture parser ok / raising / ImportError in call / None / absent module, callouts '
         'module ok / raising, SRC parser ok / raising, two-target LP, PEL truncated mid-SRC / mid-LP, BMC PEL with shipped '
         'parsers, I/O-drawer PEL, hw-diags PEL) x plug-ins {on, off}; BFS over fingerprints from each first event; plus all '
         'event sequences of length 2 (thorough 3) without merging; plus 3 directory runs. Non-trivial: a transition taken from a non-initial '
@@ -72,6 +72,7 @@ def pel_specs():
     specs['ud_other_mod'] = {'creator': 'B', 'eid': 0x50000007, 'sections': [{'t': 'UD', 'comp': 0x4444, 'payload': 'f1f2'}]}
     specs['co_ok'] = {'creator': 'B', 'eid': 0x50000008, 'sections': [_src(0, [_proc('OKPROC1'), _proc('OKPROC2')], 'B7001111')]}
     specs['co_raise'] = {'creator': 'B', 'eid': 0x50000009, 'sections': [_src(0, [_proc('RAISE01'), _proc('OKPROC3')], 'B7002222')]}
+    specs['co_importerror'] = {'creator': 'B', 'eid': 0x50000024, 'sections': [_src(0, [_proc('IMPERR1'), _proc('OKPROC5')], 'B7005555')]}
     specs['co_none'] = {'creator': 'B', 'eid': 0x5000000A, 'sections': [_src(0, [_proc('NONE001'), _proc('OKPROC4')], 'B7003333')]}
     mru1 = {'prio': 0x48, 'loc': 'U1', 'fru': {'flags': 0x18, 'pn': 'PN-MRU1'}, 'mru': {'ids': [[0x48, 0x11110001], [0x4C, 0x11110002]]}}
     mru2 = {'prio': 0x4D, 'loc': '', 'fru': {'flags': 0x18, 'pn': 'PN-MRU2'}, 'mru': {'ids': [[0x48, 0x22220001]]},
